@@ -210,6 +210,11 @@ func appendBodyFixedSize(r network.Reader, dst []byte, n int) ([]byte, error) {
 
 func readBodyIdentity(r network.Reader, maxBodySize int, dst []byte) ([]byte, error) {
 	dst = dst[:cap(dst)]
+	// how much is read does not depend on how large a buffer an earlier request
+	// has left behind: the limit bounds a recycled buffer like a grown one
+	if maxBodySize > 0 && len(dst) > maxBodySize+1 {
+		dst = dst[:maxBodySize+1]
+	}
 	if len(dst) == 0 {
 		dst = make([]byte, 1024)
 	}
